@@ -62,8 +62,18 @@ class TunnelEncap(Attribute):
         return self._attribute(value)
 
     def json(self, compact: bool | None = None) -> str:
-        parts = ', '.join(tlv.json() for tlv in self.tunnel_tlvs)
-        return '{' + parts + '}'
+        # each tunnel TLV renders as one member: the same tunnel type sent twice gave the object the same key
+        # twice (not JSON a strict reader accepts). The first of a repeated type is the one rendered.
+        members: list[str] = []
+        keys: set[str] = set()
+        for tlv in self.tunnel_tlvs:
+            member = tlv.json()
+            key = member.split(':', 1)[0]
+            if key in keys:
+                continue
+            keys.add(key)
+            members.append(member)
+        return '{' + ', '.join(members) + '}'
 
     def __str__(self) -> str:
         return 'tunnel-encap [' + ', '.join(str(t) for t in self.tunnel_tlvs) + ']'
